@@ -215,6 +215,80 @@ func c04WeightedChoose(c *core.Ctx, info *c04Info, im *c04Impl, total, weight *t
 		}
 		return
 	}
+	// ---- the selection may live in a helper that is handed the list and the draw
+	// (`pickByWeight(lb.Servers, randomWeight)`): continue there
+	f0, q0 := f, q
+	var helperCall *ast.CallExpr
+	modified := false
+	ast.Inspect(f.Body, func(n ast.Node) bool {
+		switch x := n.(type) {
+		case *ast.AssignStmt:
+			for _, l := range x.Lhs {
+				if id, ok := ast.Unparen(l).(*ast.Ident); ok && c04ObjOf(f.Info, id) == r && ast.Node(x) != defStmt {
+					modified = true
+				}
+			}
+		case *ast.IncDecStmt:
+			if id, ok := ast.Unparen(x.X).(*ast.Ident); ok && c04ObjOf(f.Info, id) == r {
+				modified = true
+			}
+		}
+		return true
+	})
+	if !modified {
+		for _, call := range calls(f.Body, false) {
+			fo, _ := f.Callee(call).(*types.Func)
+			if fo == nil || fo.Pkg() != f.Pkg.Types {
+				continue
+			}
+			hd := declOf(f.Pkg, fo)
+			if hd == nil {
+				continue
+			}
+			var params []*ast.Ident
+			for _, fld := range hd.Type.Params.List {
+				params = append(params, fld.Names...)
+			}
+			if len(params) != len(call.Args) {
+				continue
+			}
+			var drawP, listP *ast.Ident
+			for i, a := range call.Args {
+				if id, ok := ast.Unparen(a).(*ast.Ident); ok && c04ObjOf(f.Info, id) == r {
+					drawP = params[i]
+				}
+				if q.isList(a) {
+					listP = params[i]
+				}
+			}
+			// a method of the balancer itself takes the list from its receiver
+			viaRecv := false
+			if drawP != nil && listP == nil && hd.Recv != nil && len(hd.Recv.List) == 1 && len(hd.Recv.List[0].Names) == 1 && im.decl.Recv != nil && len(im.decl.Recv.List[0].Names) == 1 {
+				if sel, ok := ast.Unparen(call.Fun).(*ast.SelectorExpr); ok {
+					if id, ok := ast.Unparen(sel.X).(*ast.Ident); ok && c04ObjOf(f.Info, id) == f.Info.Defs[im.decl.Recv.List[0].Names[0]] {
+						viaRecv = true
+					}
+				}
+			}
+			if drawP == nil || (listP == nil && !viaRecv) {
+				continue
+			}
+			helperCall = call
+			f = funcOf(f.Pkg, hd)
+			c.Count("functions_analysed", 1)
+			if viaRecv {
+				q = c04NewFacts(f, im.list).withRecvList(hd)
+				r, rid, defStmt = f.Info.Defs[drawP], drawP, nil
+				totalK = ""
+				break
+			}
+			q = c04NewFactsVar(f, nil, f.Info.Defs[listP])
+			r, rid, defStmt = f.Info.Defs[drawP], drawP, nil
+			totalK = ""
+			break
+		}
+	}
+
 	// ---- (c) subtractions
 	isR := func(e ast.Expr) bool {
 		id, ok := ast.Unparen(e).(*ast.Ident)
@@ -397,6 +471,45 @@ func c04WeightedChoose(c *core.Ctx, info *c04Info, im *c04Impl, total, weight *t
 		c.Discharge("R-C04-8", consC, pos(c, loop.stmt), sprintf("%d abstract iterations all subtract the current weight once; %d in-loop returns of the current element under the strict test; %d fall-through returns (unreachable, not judged)", iterations, inLoop, after))
 	}
 	consD := im.cons + "|weight-blind choice only when no weight is positive"
+	if helperCall != nil && badD == nil {
+		// the weight-blind returns are those of ChooseServer itself that do not hand back the
+		// helper's result
+		var hv types.Object
+		pm0 := parentMap(f0.Body)
+		if as, ok := pm0[helperCall].(*ast.AssignStmt); ok && len(as.Lhs) == 1 {
+			if id, ok := as.Lhs[0].(*ast.Ident); ok {
+				hv = c04ObjOf(f0.Info, id)
+			}
+		}
+		totalK0 := ""
+		ast.Inspect(f0.Body, func(n ast.Node) bool {
+			if x, ok := n.(ast.Expr); ok && totalK0 == "" && c04SelObj(f0.Info, x) == total {
+				totalK0 = q0.canon(x, 0)
+			}
+			return true
+		})
+		res0 := analyze(c, f0, flow.Config{NoHavoc: true, Inline: inlineSamePkg(f0, f.Info.Defs[f.Node.(*ast.FuncDecl).Name])})
+		if res0 == nil {
+			return
+		}
+		uniform = 0
+		for _, ex := range res0.Exits {
+			if ex.Kind != flow.ExitReturn || ex.Return == nil || len(ex.Return.Results) != 1 {
+				continue
+			}
+			ret := ast.Unparen(ex.Return.Results[0])
+			if f0.Info.Types[ret].IsNil() || ret == ast.Expr(helperCall) {
+				continue
+			}
+			if id, ok := ret.(*ast.Ident); ok && hv != nil && c04ObjOf(f0.Info, id) == hv {
+				continue
+			}
+			uniform++
+			if badD == nil && (totalK0 == "" || !q0.nonposK(ex.State, totalK0)) {
+				badD = &finding{ex.Return, ex.State, "a server is returned without consulting its weight in a state where the total weight is not known to be <= 0: when some weight is positive a zero-weight server can be chosen"}
+			}
+		}
+	}
 	if badD != nil {
 		c.Violate("R-C04-8", consD, pos(c, badD.at), badD.why, witness(badD.st)...)
 	} else {
